@@ -82,6 +82,10 @@ func RunScenario(t *testing.T, sc *Scenario) *RunResult {
 		}
 		return res
 	}
+	if sc.Procs > 0 && sc.Kind == "tt" {
+		prev := runtime.GOMAXPROCS(sc.Procs)
+		defer runtime.GOMAXPROCS(prev)
+	}
 	expectDeadlock := false
 	// every scenario runs as a subtest: a failure the testing package raises
 	// inside the bubble (e.g. "race detected during execution of test") must
